@@ -199,6 +199,20 @@ func (w *world) viewJustifies(v *podView, a *allocT) bool {
 	return false
 }
 
+// lingerJustified: the allocation belongs to the current sandbox of a pod whose node was deleted while the pod
+// object still exists, and that object (the API server's view, the only witness left) still speaks for the
+// address: bound to that node, reporting this address or none yet.
+func (o *oracle) lingerJustified(a *allocT) bool {
+	if a.owner.kind != ownPod {
+		return false
+	}
+	pod := a.owner.sb.pod
+	if !pod.lingering || !pod.alive || pod.cur != a.owner.sb {
+		return false
+	}
+	return o.w.viewJustifies(o.w.apiPods[pod.key()], a)
+}
+
 func (o *oracle) assess(a *allocT, now time.Duration) {
 	w := o.w
 	ok := a.owner.alive()
@@ -277,8 +291,9 @@ func (g *gcIPAM) ReleaseIPs(ctx context.Context, in ...ipam.ReleaseOptions) ([]c
 				r.Probe("gc_release_names_no_current_allocation")
 				continue
 			}
+			justified := a.owner.alive() || o.lingerJustified(a)
 			tag := ""
-			if a.owner.kind == ownPod && a.owner.alive() && !a.owner.sb.pod.node.alive {
+			if a.owner.kind == ownPod && justified && !a.owner.sb.pod.node.alive {
 				// The pod's node has been deleted but its API object lingers.  The controller deliberately serves the
 				// final re-validation of such allocations from its informer cache ("We prefer the cache when the hosting
 				// node has been deleted"); if that cache has not yet seen this pod incarnation, the address of an
@@ -289,7 +304,7 @@ func (g *gcIPAM) ReleaseIPs(ctx context.Context, in ...ipam.ReleaseOptions) ([]c
 					tag = "NODE-GONE/STALE-POD-CACHE: "
 				}
 			}
-			r.Check("released_allocation_is_unjustified", !a.owner.alive(),
+			r.Check("released_allocation_is_unjustified", !justified,
 				"%sthe collector issued ReleaseIPs for %s at %s while its owner still justifies it: %s", tag, a.id, secs(now), a.owner.describe())
 			if a.owner.kind == ownPod {
 				if !a.suspect {
